@@ -44,11 +44,12 @@ const (
 	FRecursion                     // identity self-recursion (NOT the F1 rotation shape)
 	FSanitize                      // pass through `sanitize_i` (identity at run time; for C02)
 	FGlobalAgg                     // aggregate globals (struct field / array element of a global): F4 territory
+	FCommaOk                       // comma-ok type assertion / type switch (finding C08b when the datum is call result #k, k != 0)
 )
 
 // DefaultFeatures is everything except the shapes that are recorded known findings on the
 // unchanged tree or need extra configuration: recursion (F1 territory), aggregate globals (F4),
-// sanitizers (C02).
+// comma-ok assertions (C08b), sanitizers (C02).
 const DefaultFeatures = FAssign | FConcat | FConv | FField | FPtr | FSlice | FMap | FMapKey | FBox | FClosure |
 	FCall | FMultiRet | FOutParam | FMethod | FIface | FFuncVal | FGlobal | FEmbed | FPhi | FDescend | FAscend |
 	FVariadic | FDefer
@@ -307,7 +308,11 @@ func (b *caseB) step() string {
 	add(FBox, "unbox", uw, t.K == KAny, func() {
 		v := b.v()
 		es := t.Elem.String()
-		switch b.pick(3) {
+		nv := 1
+		if b.g.has(FCommaOk) {
+			nv = 3
+		}
+		switch b.pick(nv) {
 		case 0:
 			b.emit("%s := %s.(%s)", v, c, es)
 		case 1:
